@@ -99,9 +99,16 @@ def jobs(prop, tier):
     if prop == 'C01':
         BUS = dict(link=['lib/ebus/symbol.cpp', 'lib/ebus/device_trans.cpp', 'lib/ebus/result.cpp', 'lib/utils/thread.cpp'],
                    models=['string', 'libc', 'sstream', 'posix', 'containers'], solver='cadical')
-        k = 16 if T else 10
-        J.append(Job('C01', 'run_plain', 'C01_passive.cpp', defs={'K': k}, unwind=3, shape='R', timeout=2400 if T else 300,
-                     unwindset={}, bounds='%d handler steps from the real initial state, every read result symbolic' % k, **BUS))
+        k = 8
+        if T:
+          J.append(Job('C01', 'run_plain', 'C01_passive.cpp', defs={'K': k, 'ENV_MAXLEN': k, 'REF_MAXL': k}, unwind=3, shape='R', timeout=3000,
+                     unwindset={'vp_main': k + 1, 'RecListener': k + 1}, bounds='%d handler steps from the real initial state, every read result symbolic' % k, **BUS))
+        for nn in ((3, 8, 16) if T else (16,)):
+            J.append(Job('C01', 'step_nn%d' % nn, 'C01_step.cpp', defs={'NNMAX': nn}, unwind=3, shape='S', timeout=3000 if T else 300,
+                         unwindset={'vp_main': 257, 'RecListener': nn + 8, 'related': nn + 8, 'setVec': nn + 8},
+                         bounds='one handler step from every passive handler state related to a recogniser state, telegram parts up to NN=%d data bytes' % nn, **dict(BUS, solver=PORTFOLIO)))
+        J.append(Job('C01', 'step_init', 'C01_step.cpp', defs={'NNMAX': 1, 'INIT': None}, unwind=3, shape='K', timeout=600 if T else 300,
+                     unwindset={'vp_main': 9, 'RecListener': 9, 'related': 9}, bounds='the real initial state is related; one step from it', **dict(BUS, solver=PORTFOLIO)))
     if prop == 'C15':
         BUS = dict(link=['lib/ebus/symbol.cpp', 'lib/ebus/device_trans.cpp', 'lib/ebus/result.cpp', 'lib/utils/thread.cpp'],
                    models=['string', 'libc', 'sstream', 'posix', 'containers'], solver=PORTFOLIO)
@@ -277,11 +284,10 @@ META = {
    assumptions=COMMON_ASSUME,
  ),
  'C01': dict(
-   claimed=False, na_reason='harnesses C01_passive.cpp / C01_step.cpp exist but no bound profile finishes under the cap yet (CBMC symex on the translated handler: K=1 57 s, K=2 no verdict in 400 s); not claimed until a profile passes',
-   level_text='Bounded model checking of the real DirectProtocolHandler + PlainDevice: K handler steps from the real initial state, every byte, chunking, timeout and read error chosen by the solver; after every step the reported messages are compared with an independent incremental eBUS telegram recogniser. Holds for all streams within the step bound.',
-   level_note=BUS_NOTE,
-   outside_claim='streams longer than K symbols (so NN > K-7), the enhanced device variant, durations (timeouts are symbolic outcomes, not times), run() reopen loop',
-   assumptions=COMMON_ASSUME,
+   level_text='Bounded model checking, inductive: the real DirectProtocolHandler::handleSend/handleReceive on the real PlainDevice is run for ONE step from EVERY passive handler state that is related (relation R in harness/C01_step.cpp) to a state of an independent eBUS telegram recogniser written from the protocol rules, with every transport outcome (timeout, read error, chunk of 1..2 arbitrary bytes, bytes already buffered) and every clock reading chosen by the solver; asserted: the step reports exactly the telegrams the recogniser completes (count, direction, source, destination, command, unescaped data, slave data) and ends in R again. R holds in the real initial state (step_init). By induction the reports agree for byte streams of any length; the bound is the telegram size (NN <= 16 data bytes per part, the eBUS maximum) and one step. A K-step run from the initial state (run_plain, thorough) cross-checks the relation against real histories.',
+   level_note=BUS_NOTE + ' R fixes state, escape flag, CRC, repeat flag, command/response bytes; lock counters, seen-address table, master count, latency statistics, SYN time, last-receive time and listener state are arbitrary in the pre-state. Passive operation only: no own request queued or in progress, not answering (both are preserved by the step and part of R).',
+   outside_claim='telegram parts with NN > 16; own requests in flight or answer mode active while receiving (C02/C15 territory); the EnhancedDevice variant (frames decoded by C14 kernels, not composed with the handler here); DirectProtocolHandler::run() reopen loop; wall-clock durations',
+   assumptions=COMMON_ASSUME + ['induction: relation R of harness/C01_step.cpp is an invariant (base: step_init, step: step_nn*)', 'reference recogniser harness/ref_bus.h states the eBUS telegram rules'],
  ),
  'C11': dict(
    outside_claim='CRC strings longer than the fold bound (covered by the step lemma + fold induction argument, not by a query); '
